@@ -317,27 +317,19 @@ pub extern "C" fn shv_m_errno_location() -> *mut c_int {
 /// Makes every model function part of the program Kani verifies (it only compiles what the harness
 /// reaches). The comparison is on function addresses and is trivially true.
 pub fn link() {
-    let fs: [usize; 14] = [
-        shv_m__exit as *const () as usize,
-        shv_m_exit as *const () as usize,
-        shv_m_abort as *const () as usize,
-        shv_m_raise as *const () as usize,
-        shv_m_sigaction as *const () as usize,
-        shv_m_sigemptyset as *const () as usize,
-        shv_m_sigaddset as *const () as usize,
-        shv_m_sigprocmask as *const () as usize,
-        shv_m_send as *const () as usize,
-        shv_m_write as *const () as usize,
-        shv_m_recv as *const () as usize,
-        shv_m_close as *const () as usize,
-        shv_m_fcntl as *const () as usize,
-        shv_m_errno_location as *const () as usize,
-    ];
-    let mut i = 0;
-    while i < 14 {
-        if fs[i] == 0 {
-            unreachable!();
-        }
-        i += 1;
-    }
+    // loop-free on purpose (harnesses choose their own unwinding bounds)
+    kani::assume(shv_m__exit as *const () as usize != 0);
+    kani::assume(shv_m_exit as *const () as usize != 0);
+    kani::assume(shv_m_abort as *const () as usize != 0);
+    kani::assume(shv_m_raise as *const () as usize != 0);
+    kani::assume(shv_m_sigaction as *const () as usize != 0);
+    kani::assume(shv_m_sigemptyset as *const () as usize != 0);
+    kani::assume(shv_m_sigaddset as *const () as usize != 0);
+    kani::assume(shv_m_sigprocmask as *const () as usize != 0);
+    kani::assume(shv_m_send as *const () as usize != 0);
+    kani::assume(shv_m_write as *const () as usize != 0);
+    kani::assume(shv_m_recv as *const () as usize != 0);
+    kani::assume(shv_m_close as *const () as usize != 0);
+    kani::assume(shv_m_fcntl as *const () as usize != 0);
+    kani::assume(shv_m_errno_location as *const () as usize != 0);
 }
